@@ -193,8 +193,74 @@ fn run_exec(scn: &Value) {
                         "in_order": 1, "closed": results, "bound": -1, "timed_out": timed_out}));
 }
 
+/// kind "wakeup": the other thread calls LoopSignal::wakeup() once per round at a random moment around the start of the
+/// loop thread's dispatch(Some(5 s)); the dispatch in progress - or, if none is, the next one - must return promptly
+/// (a lost wake-up shows as a dispatch that takes the full five seconds).
+fn run_wakeup(scn: &Value) {
+    let rounds = scn["rounds"].as_u64().unwrap_or(20000);
+    let mut el: EventLoop<'static, u64> = EventLoop::try_new().unwrap();
+    let signal = el.get_signal();
+    let go = Arc::new(AtomicU64::new(0));
+    let done = Arc::new(AtomicU64::new(0));
+    let stop = Arc::new(AtomicBool::new(false));
+    let (go2, done2, stop2) = (go.clone(), done.clone(), stop.clone());
+    let th = std::thread::spawn(move || {
+        let mut round = 0u64;
+        let mut x = 0x9E3779B97F4A7C15u64;
+        loop {
+            while go2.load(Ordering::Acquire) <= round {
+                if stop2.load(Ordering::Acquire) {
+                    return;
+                }
+                std::hint::spin_loop();
+            }
+            if stop2.load(Ordering::Acquire) {
+                return;
+            }
+            round += 1;
+            x ^= x << 13;
+            x ^= x >> 7;
+            x ^= x << 17;
+            for _ in 0..(x % 600) {
+                std::hint::spin_loop();
+            }
+            signal.wakeup();
+            done2.store(round, Ordering::Release);
+        }
+    });
+    let (mut d, mut stranded, mut errs, mut run, mut timed_out, mut worst_us) = (0u64, -1i64, 0, 0u64, 0u8, 0u64);
+    let t0 = Instant::now();
+    for round in 1..=rounds {
+        go.store(round, Ordering::Release);
+        let b = Instant::now();
+        if el.dispatch(Some(Duration::from_secs(5)), &mut d).is_err() {
+            errs += 1;
+        }
+        let el_us = b.elapsed().as_micros() as u64;
+        worst_us = worst_us.max(el_us);
+        run = round;
+        if el_us > 2_500_000 {
+            stranded = round as i64;
+            break;
+        }
+        // the wake-up of this round is issued before the next round starts
+        while done.load(Ordering::Acquire) < round {
+            std::hint::spin_loop();
+        }
+        if t0.elapsed() > Duration::from_secs(20) {
+            timed_out = 1;
+            break;
+        }
+    }
+    stop.store(true, Ordering::Release);
+    let _ = th.join();
+    ev("hammer", json!({"id": scn["id"], "kind": "wakeup", "rounds": run, "stranded_round": stranded, "received": worst_us, "errs": errs,
+                        "in_order": 1, "closed": 1, "bound": -1, "timed_out": timed_out}));
+}
+
 fn run_scenario(scn: &Value) {
     match scn["kind"].as_str().unwrap_or("chan") {
+        "wakeup" => return run_wakeup(scn),
         "ping" => return run_ping(scn),
         "exec" => return run_exec(scn),
         _ => {}
